@@ -206,6 +206,13 @@ class SyncInterpreter(BaseInterpreter[TContext, TEvent]):
             return self
 
         logger.info("🏁 Starting sync interpreter '%s'...", self.id)
+        # 🚧 The guard goes up BEFORE the status says "running": from that
+        #    moment `send` accepts events, and one sent by an
+        #    `on_interpreter_start` hook (or by another thread) was drained at
+        #    once against the still empty configuration - accepted, matched by
+        #    nothing, lost. Behind the guard it waits for the initial entry.
+        self._is_processing = True
+        self._drain_owner = threading.get_ident()
         self.status = "running"
 
         # ✅ Define a pseudo-transition for the initial state entry
@@ -216,8 +223,12 @@ class SyncInterpreter(BaseInterpreter[TContext, TEvent]):
         )
 
         # 🔌 Notify plugins about the interpreter start
-        for plugin in self._plugins:
-            plugin.on_interpreter_start(self)
+        try:
+            for plugin in self._plugins:
+                plugin.on_interpreter_start(self)
+        except BaseException:
+            self._is_processing = False
+            raise
 
         # Capture the pre-transition state set (empty before initialization)
         pre_states = set(self._active_state_nodes)
@@ -239,8 +250,6 @@ class SyncInterpreter(BaseInterpreter[TContext, TEvent]):
         # their actions was then processed re-entrantly, in the middle of
         # that transition - between the exit and the entry, where no state
         # handles it - and was silently lost.
-        self._is_processing = True
-        self._drain_owner = threading.get_ident()
         try:
             self._enter_states([self.machine])
             self._process_transient_transitions()
